@@ -658,7 +658,42 @@ async def run_async(ctx: Ctx, use_model: bool, scale: dict):
             and i % scale["every_byte_stride"] == 0
         for tgt, data, op, cls_name in mutants_of(ctx, p, signed, tbn, other_keys, scale["flips"], bool(every)):
             cases.append({"target": tgt, "data": data, "op": op, "cls": cls_name, "origin": p["overlay"],
+                          "signer": spec_eval(p["data"])["canon"],
                           "curve": p["curve"], "src": p["src"]})
+    # -- receiver-state dimension: what the receiver already believes about the SOURCE ADDRESS of the mutant ------------
+    #    as-captured (nobody verified there, unless an earlier accepted datagram put the sender there) |
+    #    another verified peer A sits at the source address | the original signer is verified at the source address.
+    #    Dispatch-level mutants (replay into another overlay, prefix swap, flipped prefix / msg-id byte, cut-to-header)
+    #    get all three states; every other mutant gets one state drawn at random.
+    from ipv8.keyvault.crypto import _CURVES as _CV
+    from ipv8.messaging.interfaces.udp.endpoint import UDPv4Address
+    extra = []
+    for c in cases:
+        dispatch_level = c["op"] in ("replay-other-overlay", "prefix-swap", "msgid-swap", "unmodified") or \
+            (c["op"] == "bitflip" and c["cls"] in ("prefix", "msgid")) or (c["op"] == "truncate" and c["cls"].startswith("keep2"))
+        src = UDPv4Address(*c["src"])
+        okey = c.get("signer")
+
+        def with_state(cc, state):
+            cc = dict(cc)
+            cc["srcstate"] = state
+            if state == "other-verified-peer-at-src":
+                cc["pre"] = [(bytes(r.PrivateKey.generate(_CV["curve25519"]).pub().key_to_bin()), src)]
+            elif state == "signer-verified-at-src" and okey is not None:
+                cc["pre"] = [(okey, src)]
+            return cc
+        if dispatch_level:
+            c["srcstate"] = "as-captured"
+            extra.append(with_state(c, "other-verified-peer-at-src"))
+            if okey is not None:
+                extra.append(with_state(c, "signer-verified-at-src"))
+        else:
+            st = ctx.rng.choice(["as-captured", "as-captured", "other-verified-peer-at-src", "signer-verified-at-src"])
+            if st != "as-captured" and (st != "signer-verified-at-src" or okey is not None):
+                c.update(with_state(c, st))
+            else:
+                c["srcstate"] = "as-captured"
+    cases.extend(extra)
     for i, p in enumerate(signed):
         if i % scale["identity_stride"] == 0:
             cases.extend(identity_cases(ctx, p))
@@ -754,7 +789,13 @@ async def run_async(ctx: Ctx, use_model: bool, scale: dict):
             replay = {"overlay": tgt, "data": data.hex(), "src": list(c["src"]), "operator": c["op"],
                       "position": c["cls"], "origin_overlay": c["origin"], "sender_curve": c["curve"],
                       "verified_before": [[k.hex(), list(a)] for k, a in pre]}
-            any_entry = bool(entered) or (raw_entered and bool(avp))
+            # a raw (undecorated) function registered under an authenticated id: the reviewed one (spec raw_modelled)
+            # authenticates inside and counts as entered when it reaches add_verified_peer; any OTHER raw function is the
+            # handler itself — its body runs for whatever arrives, so entering it is the handler invocation
+            raw_reviewed = h is not None and data[22] in spec.get("raw_modelled", {}).get(tgt, [])
+            any_entry = bool(entered) or (raw_entered and (bool(avp) or not raw_reviewed))
+            if raw_entered and not raw_reviewed and impl == "not-called":
+                impl = "called-raw"
             if any_entry and data[:22] != t["prefix"]:
                 ctx.oracle_fail("Community.on_packet:foreign-prefix",
                                 f"{tgt} ran a handler for a datagram whose prefix is not the overlay's ({c['op']})", replay)
@@ -779,12 +820,15 @@ async def run_async(ctx: Ctx, use_model: bool, scale: dict):
             ctx.count(f"pos:{c['op']}:{c['cls']}" if c["op"] in ("bitflip", "truncate", "identity-matrix")
                       else f"sub:{c['op']}:{c['cls'][:12]}")
             ctx.count(f"target:{tgt}")
+            ctx.count(f"srcstate:{c.get('srcstate', 'identity-matrix' if c['op'] == 'identity-matrix' else 'as-captured')}")
+            if c["op"] in ("replay-other-overlay", "prefix-swap"):
+                ctx.count(f"dispatch:{c['op']}:{c.get('srcstate', 'as-captured')}")
             ctx.count(f"curve:{c['curve']}")
             ctx.count(f"kind:{h['kind'] if h else 'no-handler/foreign-prefix'}")
             ctx.count(f"spec:{'authentic' if sp['authentic'] else 'not-authentic'}")
             ctx.count(f"impl:{impl.split(' ')[0]}")
             ctx.count("len:%s" % ("<64" if len(data) < 64 else "<256" if len(data) < 256 else "<1024" if len(data) < 1024 else ">=1024"))
-            ctx.case((tgt, data[22] if len(data) > 22 else -1, c["op"], c["cls"], c["curve"]), reached)
+            ctx.case((tgt, data[22] if len(data) > 22 else -1, c["op"], c["cls"], c["curve"], c.get("srcstate")), reached)
             if len(ctx.samples) < 6 and c["op"] in ("key-substitution+resign", "prefix-swap", "identity-matrix") \
                     and not any(x["operator"] == c["op"] and x["position"] == c["cls"] for x in ctx.samples):
                 ctx.sample({"target": tgt, "msg_id": data[22], "operator": c["op"], "position": c["cls"],
@@ -804,7 +848,7 @@ async def run_async(ctx: Ctx, use_model: bool, scale: dict):
             head = rep.split(" ")[0]
             ctx.count(f"model:{rep if head in ('rejected', 'other') else head}")
             if head == "other":
-                continue                       # deprecated / cell handlers: not modelled
+                continue                       # deprecated / cell / unreviewed raw handlers: not modelled
             if head == "called":
                 model = " ".join(rep.split(" ")[:3])
             elif head == "called-addr":
@@ -912,7 +956,9 @@ async def replay(ctx: Ctx, rec: dict):
     h = handler_for(tbn[r["overlay"]], data)
     entered = [e for e in events if e[0][0] in ("handler",)]
     avp = [e for e in events if e[0][0] == "add_verified_peer"]
-    any_entry = bool(entered) or (h is not None and h["kind"] == "raw" and bool(avp))
+    raw_e = any(e[0][0] == "raw-entry" for e in events)
+    raw_reviewed = h is not None and data[22] in spec.get("raw_modelled", {}).get(r["overlay"], [])
+    any_entry = bool(entered) or (raw_e and (bool(avp) or not raw_reviewed))
     bad = any_entry and ((h is not None and (r["overlay"], data[22]) in required and not sp["authentic"])
                          or data[:22] != tbn[r["overlay"]]["prefix"])
     bad = bad or any(peer_key_of(e[1]) not in (None, sp["canon"]) for e in entered)
